@@ -103,7 +103,7 @@ func body(c cfg) explore.Body {
 			gg, other := g[i], g[1-i]
 			cp := sim.RemotePort(gg.name + ".CP")
 			// local memory
-			gg.memF = &world.Feeder{W: w, Port: gg.local, Tag: gg.name + ".mem", Reorder: true, DelayAlphabet: []int{2, 5}}
+			gg.memF = &world.Feeder{W: w, Port: gg.local, Tag: gg.name + ".mem", Reorder: true, DelayAlphabet: []int{2, 5}, Burst: 3}
 			gg.memF.OnDeliver = func(m sim.Msg) {
 				if _, ok := m.(*mem.WriteDoneRsp); ok {
 					gg.wdone++
@@ -136,7 +136,7 @@ func body(c cfg) explore.Body {
 				}
 			}
 			// inter-PMC wire: what this PMC sends goes to the other one
-			other.netF = &world.Feeder{W: w, Port: other.remote, Tag: "net->" + other.name, DelayAlphabet: []int{1, 4}}
+			other.netF = &world.Feeder{W: w, Port: other.remote, Tag: "net->" + other.name, DelayAlphabet: []int{1, 4}, Burst: 3}
 			gg.netSink = &world.Sink{W: w, Port: gg.remote, Tag: gg.name + ".net", StallAlphabet: []int{1, 3}}
 			gg.netSink.Handle = func(m sim.Msg) {
 				if m.Meta().Dst != other.remote.AsRemote() {
